@@ -129,12 +129,32 @@ func annStr(as []ion.SymbolToken) string {
 type stop struct{}
 
 type walker struct {
+	sid    bool
 	r      ion.Reader
 	prog   Program
 	out    *Outcome
 	idx    int
 	build  bool
 	keepID bool
+}
+
+// tok renders a symbol token; with sid set, its LocalSID is part of the rendering.
+func (w *walker) tok(t *ion.SymbolToken) string {
+	if w.sid && t != nil {
+		return tokStr(t) + "#" + strconv.FormatInt(t.LocalSID, 10)
+	}
+	return tokStr(t)
+}
+
+func (w *walker) anns(as []ion.SymbolToken) string {
+	if !w.sid {
+		return annStr(as)
+	}
+	parts := make([]string, len(as))
+	for i := range as {
+		parts[i] = w.tok(&as[i])
+	}
+	return strings.Join(parts, ",")
 }
 
 func (w *walker) fail(at string, err error) {
@@ -232,7 +252,7 @@ func (w *walker) scalar(t ion.Type) string {
 		if err != nil {
 			w.fail("SymbolValue", err)
 		}
-		return tokStr(v)
+		return w.tok(v)
 	case ion.StringType:
 		v, err := r.StringValue()
 		if err != nil {
@@ -316,13 +336,13 @@ func (w *walker) level(depth int, limit int) []*Node {
 			w.fail("FieldName", err)
 		}
 		if fn != nil {
-			o.Field = tokStr(fn)
+			o.Field = w.tok(fn)
 		}
 		as, err := r.Annotations()
 		if err != nil {
 			w.fail("Annotations", err)
 		}
-		o.Annots = annStr(as)
+		o.Annots = w.anns(as)
 		if d.Refused&4 != 0 && depth == 0 {
 			r.StepOut()
 		}
@@ -351,10 +371,10 @@ func (w *walker) level(depth int, limit int) []*Node {
 					if r.Type() != t || r.IsNull() != o.Null {
 						o.Val += "!type-or-null-changed-after-read"
 					}
-					if fn2, err := r.FieldName(); err == nil && ((fn2 == nil) != (fn == nil) || (fn2 != nil && tokStr(fn2) != o.Field)) {
+					if fn2, err := r.FieldName(); err == nil && ((fn2 == nil) != (fn == nil) || (fn2 != nil && w.tok(fn2) != o.Field)) {
 						o.Val += "!field-name-changed-after-read"
 					}
-					if as2, err := r.Annotations(); err == nil && annStr(as2) != o.Annots {
+					if as2, err := r.Annotations(); err == nil && w.anns(as2) != o.Annots {
 						o.Val += "!annotations-changed-after-read"
 					}
 				}
@@ -393,12 +413,12 @@ func (w *walker) level(depth int, limit int) []*Node {
 				// the reader's answers between StepOut and the next Next
 				ao := Obs{Depth: depth, Type: r.Type().String(), Null: r.IsNull()}
 				if fn, err := r.FieldName(); err == nil && fn != nil {
-					ao.Field = tokStr(fn)
+					ao.Field = w.tok(fn)
 				} else if err != nil {
 					ao.Field = "error"
 				}
 				if as, err := r.Annotations(); err == nil {
-					ao.Annots = annStr(as)
+					ao.Annots = w.anns(as)
 				} else {
 					ao.Annots = "error"
 				}
@@ -474,6 +494,9 @@ type ReadCase struct {
 	SimCatalog bool `json:"sim_catalog,omitempty"`
 	KeepMaxID  bool `json:"keep_max_id,omitempty"`
 	BuildTree  bool `json:"-"`
+	// KeepSID makes the trace show a symbol token's LocalSID next to its text (scenarios whose reference is ion-go's own
+	// traversal compare whole tokens; the model-based ones compare by text, then by ID when the text is unknown).
+	KeepSID bool `json:"keep_sid,omitempty"`
 	// Seekable offers the reader an io.Seeker as well (whole delivery only).
 	Seekable bool `json:"seekable,omitempty"`
 	// Cat, when set, is used as is (a shared catalog object of the concurrent scenario) instead of Catalog.
@@ -496,7 +519,7 @@ func RunReadSrc(c ReadCase, src *sim.Source, yield func(string)) (out *Outcome) 
 		out.Cuts = src.Cuts
 	}()
 	var r ion.Reader
-	w := &walker{prog: c.Prog, out: out, build: c.BuildTree || c.Prog.Kind == "full", keepID: c.KeepMaxID}
+	w := &walker{sid: c.KeepSID, prog: c.Prog, out: out, build: c.BuildTree || c.Prog.Kind == "full", keepID: c.KeepMaxID}
 	func() {
 		defer func() {
 			if p := recover(); p != nil {
